@@ -11,10 +11,12 @@ def cubes(tier):
         out += [dict(listing=[[0], [0, 1]], nfiles=2, cls=c, shallow=s) for c in CLS for s in (True, False)]
         out += [dict(listing=[[0, 1]], nfiles=2, cls=c, shallow=False, alien=True) for c in ("local", "remote")]
         out += [dict(listing=[[0]], nfiles=1, cls=c, shallow=True, ro=True) for c in CLS]
+        out += [dict(listing=[[0], [0, 1]], nfiles=2, cls=c, shallow=False, cache=True) for c in ("local", "remote")]  # listings from cache_odb
         return out
     out = [dict(listing=l, cls=c, shallow=s, nfiles=3, alien=a, _w=len(l)) for l in LISTINGS_T for c in CLS for s in (True, False)
            for a in (False, True)]
     out += [dict(listing=[[0, 1]], nfiles=2, cls=c, shallow=s, ro=True) for c in CLS for s in (True, False)]
+    out += [dict(listing=l, cls=c, shallow=False, nfiles=3, cache=True, _w=len(l)) for l in LISTINGS_T for c in CLS]
     return out
 
 
